@@ -544,4 +544,35 @@ def r_event_locked(e, R):
                 and g.dominates(m, n)]
         R.check(bool(rels), "R-EVENT-LOCKED", "Event.wait: a successful probe puts the flag back", w.short, "flag.release()", "Event.wait consumes the flag: the event is cleared "
                 "by the first waiter", e.loc(w, n.ast))
-    R.floor("R-EVENT-LOCKED", 12)
+    # every probe of the flag (non-blocking acquire used as a test) is balanced with polarity: success => the token is put
+    # back before anything else looks at the flag; failure => nothing is released (that would *set* the event)
+    for nm in ("is_set", "wait"):
+        m = ev.methods[nm]
+        mg = e.cfg(m)
+        isflag = lambda x, m=m: isinstance(x, ast.Attribute) and _attr_of_self(x, m.params[0]) == flag
+        prs = [n for n in mg.nodes if n.kind == "test" and isinstance(n.ast, ast.Call) and isinstance(n.ast.func, ast.Attribute) and n.ast.func.attr == "acquire"
+               and isflag(n.ast.func.value)]
+        rel = lambda n, m=m: any(isinstance(c.func, ast.Attribute) and c.func.attr == "release" and isflag(c.func.value) for c in calls_in(n))
+        cwn = lambda n, m=m: any(isinstance(c.func, ast.Attribute) and c.func.attr == "wait" and _attr_of_self(c.func.value, m.params[0]) == cond for c in calls_in(n))
+        if not prs:
+            raise AnalysisError(f"Event.{nm}: flag probe not found")
+        for pr in prs:
+            stop = lambda n, pr=pr: (n in prs and n is not pr) or n is mg.exit or cwn(n)
+            esc = mg.find_path(pr, stop, avoid=rel, use_exc=False, start_labels=["T"])
+            R.check(esc is None, "R-EVENT-LOCKED", f"Event.{nm}: a successful probe puts the flag back at once", m.short, norm(pr.ast),
+                    f"Event.{nm} consumes the flag when the event is set: the event is silently cleared by whoever looks at it", e.loc(m, pr.ast),
+                    mg.fmt_path(esc) if esc else None)
+            bad = mg.find_path(pr, rel, avoid=lambda n, pr=pr: n in prs and n is not pr, use_exc=False, start_labels=["F"])
+            R.check(bad is None, "R-EVENT-LOCKED", f"Event.{nm}: a failed probe releases nothing", m.short, norm(pr.ast),
+                    f"Event.{nm} releases the flag after failing to acquire it: looking at a clear event sets it", e.loc(m, pr.ast), mg.fmt_path(bad) if bad else None)
+        if nm == "is_set":
+            rts = [n for n in mg.nodes if n.kind == "stmt" and isinstance(n.ast, ast.Return) and isinstance(n.ast.value, ast.Constant)]
+            okp = len(prs) == 1 and all(mg.on_branch(r, prs[0], "T" if r.ast.value.value is True else "F") for r in rts) and {r.ast.value.value for r in rts} == {True, False}
+            R.check(okp, "R-EVENT-LOCKED", "Event.is_set: True iff the probe succeeded", m.short, "return True / return False", "is_set reports the opposite of the flag", e.loc(m, m.node))
+        else:
+            first = [pr for pr in prs if not any(mg.path_exists(c_, lambda n, pr=pr: n is pr, use_exc=False) for c_ in mg.nodes if cwn(c_))]
+            okw = bool(first) and all(mg.find_path(pr, cwn, use_exc=False, start_labels=["T"], avoid=lambda n: n in prs) is None and
+                                      mg.escape_path(pr, cwn, until_pred=lambda n: n in prs, use_exc=False, start_labels=["F"]) is None for pr in first)
+            R.check(okw, "R-EVENT-LOCKED", "Event.wait: blocks on the condition exactly when the first probe finds the event clear", m.short, "if probe: release else: cond.wait(timeout)",
+                    "Event.wait sleeps although the event is set (until the timeout / forever), or returns at once although it is clear", e.loc(m, m.node))
+    R.floor("R-EVENT-LOCKED", 19)
